@@ -3,6 +3,7 @@ package nodes
 import (
 	"fmt"
 	"os"
+	"sort"
 	"time"
 
 	"github.com/pokt-network/pocket-core/x/nodes/keeper"
@@ -93,7 +94,15 @@ func InitGenesis(ctx sdk.Ctx, keeper keeper.Keeper, supplyKeeper types.AuthKeepe
 		res = keeper.UpdateTendermintValidators(ctx)
 	}
 	// update signing information from genesis state
-	for addr, info := range data.SigningInfos {
+	// iterate in a fixed order: the entries are inserted into the state tree,
+	// whose shape (and root hash) depends on the order of inserts
+	signingInfoAddrs := make([]string, 0, len(data.SigningInfos))
+	for addr := range data.SigningInfos {
+		signingInfoAddrs = append(signingInfoAddrs, addr)
+	}
+	sort.Strings(signingInfoAddrs)
+	for _, addr := range signingInfoAddrs {
+		info := data.SigningInfos[addr]
 		address, err := sdk.AddressFromHex(addr)
 		if err != nil {
 			keeper.Logger(ctx).Error(fmt.Sprintf("unable to convert address from hex in genesis signing info for addr: %s err: %v", addr, err))
@@ -102,7 +111,13 @@ func InitGenesis(ctx sdk.Ctx, keeper keeper.Keeper, supplyKeeper types.AuthKeepe
 		keeper.SetValidatorSigningInfo(ctx, address, info)
 	}
 	// update missed block information from genesis state
-	for addr, array := range data.MissedBlocks {
+	missedBlocksAddrs := make([]string, 0, len(data.MissedBlocks))
+	for addr := range data.MissedBlocks {
+		missedBlocksAddrs = append(missedBlocksAddrs, addr)
+	}
+	sort.Strings(missedBlocksAddrs)
+	for _, addr := range missedBlocksAddrs {
+		array := data.MissedBlocks[addr]
 		address, err := sdk.AddressFromHex(addr)
 		if err != nil {
 			keeper.Logger(ctx).Error(fmt.Sprintf("unable to convert address from hex in genesis missed blocks for addr: %s err: %v", addr, err))
